@@ -16,20 +16,13 @@
 (* the writes of concurrently running calls.  Item values are abstract:    *)
 (* Item(i) = <<"item", i>> (the construction 7.3 is in Superscalar.tla).   *)
 (***************************************************************************)
-EXTENDS Integers, FiniteSets, Sequences, TLC
+EXTENDS DatasetSplit, FiniteSets, TLC
 
 CONSTANTS N,          \* number of dataset items (scaled down)
           Threads
 
 Untouched == <<"untouched", -1>>
 Item(i) == <<"item", i>>
-
-\* inner calls of one request: sequence of [s, e, dest] with dest = first dataset index written, or -1 for the private buffer
-InnerCalls(start, count) ==
-  IF count < 4 THEN << [s |-> start, e |-> start + 4, dest |-> -1] >>
-  ELSE IF count % 4 = 0 THEN << [s |-> start, e |-> start + count, dest |-> start] >>
-  ELSE << [s |-> start, e |-> start + count - (count % 4), dest |-> start],
-          [s |-> start + count - 4, e |-> start + count, dest |-> start + count - 4] >>
 
 \* single-item writes of a request, in code order: <<dataset index, item number>>
 RECURSIVE Range(_, _)
